@@ -41,6 +41,19 @@ Lemma dispatch_mixed_decided_by_witness :
   forall fp, has_trig fp = true -> has_exp fp = true -> is_raise (get_func_moment fp) = true.
 Proof. intros H fp H1 H2. dispatch_cases fp. Qed.
 
+(* if the witness request is answered by the trig branch, the factor exp(X) is dropped: the answer
+   is that of the request without the Exp power *)
+Lemma dispatch_refuted_if_witness_trig :
+  get_func_moment mixed_witness = DTrig ->
+  exists fp, has_trig fp = true /\ has_exp fp = true /\ get_func_moment fp = DTrig /\
+    forall (R : cring) (Iu : R) (cf : Z -> R) (dcf : nat -> Z -> R),
+      get_trig_moment_num R Iu cf dcf fp = get_trig_moment_num R Iu cf dcf [("Sin", 1%nat)] /\
+      get_trig_moment_den R Iu cf dcf fp = get_trig_moment_den R Iu cf dcf [("Sin", 1%nat)].
+Proof.
+  intros H. exists mixed_witness. split; [reflexivity|]. split; [reflexivity|]. split; [exact H|].
+  intros R Iu cf dcf. split; reflexivity.
+Qed.
+
 (* ------------------------------------------------------------------------------------ *)
 (** * 2. get_trig_moment                                                                *)
 (* ------------------------------------------------------------------------------------ *)
